@@ -536,6 +536,11 @@ def consumer_delayed_calls(tr, consumer=None):
     for dc in tr.w.clock.getDelayedCalls():
         f = dc.func
         owner = getattr(f, "__self__", None)
+        if type(f).__name__ == "LoopingCall":
+            # a LoopingCall schedules itself: the delayed call's function is the LoopingCall object
+            if f is getattr(c, "_commit_looper", None) or getattr(getattr(f, "f", None), "__self__", None) is c:
+                out.append("looping:" + getattr(getattr(f, "f", None), "__name__", "?"))
+            continue
         if owner is c:
             out.append(getattr(f, "__name__", "?"))
         elif type(owner).__name__ == "LoopingCall" and owner is getattr(c, "_commit_looper", None):
